@@ -121,6 +121,8 @@ class Ctx:
         """Constrain the inputs (part of the claim; recorded)."""
         if isinstance(expr, SBool):
             expr = expr.e
+        if type(expr).__name__ == "bool_":
+            expr = bool(expr)
         if isinstance(expr, bool):
             if not expr:
                 raise Infeasible()
@@ -141,6 +143,8 @@ class Ctx:
         """True if the path condition implies expr; otherwise a z3 model refuting it."""
         if isinstance(expr, SBool):
             expr = expr.e
+        if type(expr).__name__ == "bool_":  # numpy bool
+            expr = bool(expr)
         if isinstance(expr, bool):
             if expr:
                 return True
